@@ -15,14 +15,20 @@ What the theorems say, for EVERY heap state (any number of threads, objects, edg
 * `collect_complete`  whatever survives in a swept heap is reachable from a root (memory returns to
                       the reachable baseline), and nothing outside the swept heaps is touched;
 * `mark_exact`        the mark phase visits exactly what is reachable without entering an older
-                      generation;
+                      generation; `mark_total`/`collect_total`: the fuel always suffices;
+* `reachable_inv`, `reachable_collect_safe`  the invariant — hence safety — holds in EVERY state
+                      reachable by any sequence of alloc / root / unroot / spawn / dropThread /
+                      store / transfer / collect from a fresh VM (no promotion of module values);
 * `collect_keeps_invariant`, `transfer_keeps_invariant`, `clone_keeps_invariant` the operations
                       maintain `Inv` (and `Homed`) — except the promotion of a module value, which
                       keeps `Inv` but BREAKS `Homed` for cells: `promotion_breaks_homing_fails` and
                       `collect_without_homing_fails` are the defect D1 (module-level lazy/reference).
 -/
 import GluonModel.GcHeap
+import GluonModel.GcMachine
 import GluonModel.Proofs.GcHeap
+import GluonModel.Proofs.GcHeapTotal
+import GluonModel.Proofs.GcMachine
 
 namespace GluonModel.Props.C05
 open GluonModel.GcHeap
@@ -76,6 +82,70 @@ theorem clone_keeps_invariant {s0 s' : State} {dst thr : HeapId} {rgen : Option 
     (hinv : Inv s0) (hthr : dst <+: thr) {v r : Nat} (hv : Rel v)
     (h : deepClone s0 dst thr rgen fixed v = some (s', r)) : Inv s' :=
   deepClone_inv ctx hnd hinv hthr hv h
+
+/-! ### Totality: the fuel of the executable `mark` always suffices, so the statements above are
+about the fuel-free relation "`collect s t` = the state after the collection". -/
+
+theorem mark_total (s : State) (t : HeapId) (hwf : WF s) : ∃ m, mark s t = some m :=
+  mark_total' s t hwf
+
+theorem collect_total (s : State) (t : HeapId) (hwf : WF s) : ∃ s', collect s t = some s' :=
+  collect_total' s t hwf
+
+/-! ### The invariant holds in EVERY reachable state of the operation machine
+(`GluonModel.GcMachine`: `alloc`, `root`, `unroot`, `spawn`, `dropThread`, `store` into a mutable
+cell, `transfer`, `collect`, in any order, any number of times, from a fresh VM) — as long as no
+module value is promoted into the global heap (`promote`, the D1 operation). `fixed = false` is
+the cloner as it is (then `alloc` refuses arrays of strings, the other known cloner defect);
+`fixed = true` the repaired one (no restriction). -/
+
+/-- One step keeps the machine invariant (`Good` = `WF ∧ Inv ∧ NoDangling ∧` every object homed /
+    bytecode global / string arrays only when repaired `∧` global roots in the global heap). -/
+theorem step_keeps_invariant {fixed : Bool} {s : State} (g : Good fixed s) (op : Op)
+    (hop : op.isPromote = false) : Good fixed (step fixed s op) :=
+  step_good g op hop
+
+theorem reachable_inv (fixed : Bool) (ops : List Op) (h : ∀ op ∈ ops, op.isPromote = false) :
+    WF (run fixed init ops) ∧ Inv (run fixed init ops) ∧ Homed (run fixed init ops) ∧
+      NoDangling (run fixed init ops) :=
+  let g := run_good ops init (init_good fixed) h
+  ⟨g.wf, g.inv, g.homed, g.nd⟩
+
+/-- **Safety in every reachable state**: after any history without promotion, a collection of any
+    thread heap terminates and leaves every object reachable from any root unchanged. -/
+theorem reachable_collect_safe (fixed : Bool) (ops : List Op)
+    (h : ∀ op ∈ ops, op.isPromote = false) (t : HeapId) (ht : t ≠ []) :
+    ∃ s', collect (run fixed init ops) t = some s' ∧
+      ∀ p op, (run fixed init ops).obj p = some op →
+        Reach (run fixed init ops) (AllRoots (run fixed init ops)) p → s'.obj p = some op :=
+  let g := run_good ops init (init_good fixed) h
+  let ⟨s', hs'⟩ := collect_total' _ t g.wf
+  ⟨s', hs', fun _ _ hop hr => collect_safe' g.wf g.inv g.homed g.grootsGlobal ht hs' hop hr⟩
+
+/-- The history of D1 on the machine: a thread builds a cell, the module value is promoted, the
+    thread stores a fresh value into the promoted cell and drops its own handle to the value. -/
+def opsD1 : List Op :=
+  [.alloc [0] .plain [], .alloc [0] .cell [1], .root [0] 2, .promote [0] 2,
+   .alloc [0] .plain [], .root [0] 5, .store [0] 4 5, .unroot [0] 5]
+
+/-- With the promotion the reachable state has a global root (4) pointing at a thread-heap value
+    (5) that the thread's next collection frees. -/
+theorem reachable_with_promotion_fails :
+    (run false init opsD1).groots = [4] ∧
+    ((run false init opsD1).obj 4).map (fun o => (o.owner, o.home, o.edges)) = some ([], [0], [5]) ∧
+    freedBy (run false init opsD1) [0] = some [5] := by
+  decide
+
+/-- The third sentence of the property ("values that are no longer reachable are reclaimed") FAILS
+    for threads: a spawned thread that has finished and that nobody references stays in its
+    parent's child list for the lifetime of the VM (thread.rs:382), so neither its `Thread` object
+    nor its heap is ever reclaimed. Here: spawn, the child finishes, the host drops its handle,
+    the parent collects — object 1 (the child `Thread`) is still there. -/
+theorem spawned_thread_never_reclaimed_fails :
+    ((run false init [.spawn [0] 0, .dropThread [0, 0], .unroot [0] 1, .collect [0]]).obj 1).map
+      (fun o => (o.kind, o.home)) = some (Kind.thread, [0, 0]) ∧
+    freedBy (run false init [.spawn [0] 0, .dropThread [0, 0], .unroot [0] 1]) [0] = some [] := by
+  decide
 
 /-! ### D1: a module-level cell is promoted into the global heap but keeps `thread` = the importing
 thread; the next store puts the value into that thread's heap; the thread's collection neither
